@@ -67,24 +67,28 @@ def run_task_child(tid, conn, workers):
 
 
 def run_tasks(tids, max_parallel=4):
-    """run tasks in forked children (heavy ones first)"""
+    """run tasks in forked children: heavy tasks one at a time with most cores, light tasks a few at a time with two workers each"""
     from pyvc.spec import TASKS
     ctx = mp.get_context("fork")
-    order = sorted(tids, key=lambda t: (not TASKS[t].heavy, t))
     ncpu = os.cpu_count() or 4
+    heavy = [t for t in sorted(tids) if TASKS[t].heavy]
+    light = [t for t in sorted(tids) if not TASKS[t].heavy]
     results = {}
-    running = []
-    pending = list(order)
-    while pending or running:
-        while pending and len(running) < max_parallel:
-            tid = pending.pop(0)
-            parent, child = ctx.Pipe(duplex=False)
-            w = ncpu if TASKS[tid].heavy else max(2, ncpu // max_parallel)
-            p = ctx.Process(target=run_task_child, args=(tid, child, w))
-            p.start(); child.close()
-            running.append((tid, p, parent))
+    running = []          # (tid, process, conn, is_heavy)
+
+    def start(tid, is_heavy):
+        parent, child = ctx.Pipe(duplex=False)
+        w = max(2, ncpu - 4) if is_heavy else 2
+        p = ctx.Process(target=run_task_child, args=(tid, child, w))
+        p.start(); child.close()
+        running.append((tid, p, parent, is_heavy))
+    while heavy or light or running:
+        if heavy and not any(r[3] for r in running):
+            start(heavy.pop(0), True)
+        while light and len([r for r in running if not r[3]]) < max_parallel:
+            start(light.pop(0), False)
         still = []
-        for tid, p, conn in running:
+        for tid, p, conn, ih in running:
             if conn.poll(0.05):
                 try:
                     results[tid] = conn.recv()
@@ -96,8 +100,8 @@ def run_tasks(tids, max_parallel=4):
                 if tid not in results:
                     results[tid] = {"task": tid, "status": "engine-error", "error": f"child exited with {p.exitcode}", "results": [], "info": []}
             else:
-                still.append((tid, p, conn))
-        running = still
+                still.append((tid, p, conn, ih))
+        running[:] = still
     return results
 
 
@@ -207,6 +211,25 @@ def check(prop, tier, seed):
         if rr.get("found"):
             failures.append((b["name"], {"name": "bounded:" + b["name"], "verdict": "failed", "backend": "bounded-enumeration", "model": None,
                                          "reason": "bounded stand-in found a failing input", "time": 0, "kind": "bounded", "witness": rr}))
+    # ---- thorough tier: run-time contract exploration with every witness-search module of the property's tasks, and the seeded-edit self-test
+    exploration = []
+    selftest_res = []
+    if tier == "thorough":
+        reps = []
+        for tid in tids:
+            rp = TASKS[tid].replay
+            if rp and rp not in reps and os.path.exists(os.path.join(VERIF, "replay", rp + ".py")):
+                reps.append(rp)
+        for rp in reps:
+            rr = run_replayer(rp, prop, "", seed, "thorough", timeout=3000)
+            exploration.append({"replayer": rp, "cases": rr.get("cases"), "contract_evaluations": rr.get("contract_evaluations"), "clean": not rr.get("found", False), "error": rr.get("error")})
+            if rr.get("found"):
+                failures.append((rp, {"name": "run-time contract:" + str((rr.get("observed") or {}).get("clause"))[:160], "verdict": "failed", "backend": "run-time contract on the real code",
+                                      "model": None, "reason": "a contract clause evaluated false on a concrete execution", "time": 0, "kind": "runtime", "witness": rr}))
+        selftest_res = selftest(prop, seed)
+        for e in selftest_res:
+            if e.get("applied") and not e.get("caught"):
+                engine_errors.append(("selftest", f"seeded edit not detected: {e['file']}: {e['edit']}"))
     # ---- failures: witness search + replay
     seen = set()
     for tid, x in failures:
@@ -269,6 +292,8 @@ def check(prop, tier, seed):
         "samples": samples or [{"note": "no obligation discharged"}],
         "canaries": canaries,
         "bounded_standins": bounded,
+        "thorough_exploration": exploration,
+        "seeded_edit_selftest": selftest_res,
         "not_decided": pinfo.get("not_decided", []) + [u["obligation"] + " (unfinished proof: " + u["reason"] + ")" for u in unfinished],
         "unfinished_proofs": unfinished,
         "known_findings_seen": known_lines,
@@ -293,7 +318,49 @@ def check(prop, tier, seed):
     return exit_code
 
 
+def run_tasks_only(tids, out_path):
+    """helper mode for the seeded-edit self-test: run the given tasks on $PAMS_REPO and dump verdict counts"""
+    load_specs()
+    res = run_tasks(tids, max_parallel=3)
+    summary = {}
+    for tid, r in res.items():
+        bad = [x["name"] for x in r.get("results", []) if x["expect"] != "fail" and x["verdict"] != "proved" and not x.get("unfinished")]
+        summary[tid] = {"status": r["status"], "error": (r.get("error") or "")[:300], "not_discharged": bad[:20], "n": len(r.get("results", []))}
+    json.dump(summary, open(out_path, "w"))
+    return 0
+
+
+def selftest(prop, seed):
+    """apply each deliberate edit of specs/selftest.py to a scratch copy outside /repo and /verif; the named tasks must turn red there"""
+    import shutil, tempfile
+    from specs import selftest as ST
+    out = []
+    for rel, old, new, tids in ST.EDITS.get(prop, []):
+        d = tempfile.mkdtemp(prefix="pyvc_selftest_")
+        entry = {"file": rel, "edit": (old[:50] + " -> " + new[:50]).replace("\n", " "), "tasks": tids}
+        try:
+            shutil.copytree(os.path.join(REPO, "pams"), os.path.join(d, "pams"))
+            fp = os.path.join(d, rel)
+            txt = open(fp).read()
+            if old not in txt:
+                entry.update(applied=False, caught=None, note="edit anchor not found in the current source (skipped)")
+                out.append(entry); continue
+            open(fp, "w").write(txt.replace(old, new, 1))
+            env = dict(os.environ); env["PAMS_REPO"] = d; env["PYVC_RLIMIT1"] = "4000000"; env["PYVC_RLIMIT2"] = "4000000"; env["PYVC_CVC5_S"] = "5"
+            res_path = os.path.join(d, "result.json")
+            p = subprocess.run([sys.executable, "-m", "pyvc.run", "--run-tasks", ",".join(tids), res_path], env=env, cwd=VERIF, capture_output=True, text=True, timeout=3600)
+            summ = json.load(open(res_path)) if os.path.exists(res_path) else {}
+            caught = any(v["status"] != "ok" or v["not_discharged"] for v in summ.values())
+            entry.update(applied=True, caught=caught, failing=[n for v in summ.values() for n in v["not_discharged"]][:4], engine_refused=[v["error"][:120] for v in summ.values() if v["status"] != "ok"])
+        finally:
+            shutil.rmtree(d, ignore_errors=True)
+        out.append(entry)
+    return out
+
+
 def main(argv):
+    if len(argv) >= 3 and argv[0] == "--run-tasks":
+        return run_tasks_only(argv[1].split(","), argv[2])
     if len(argv) >= 2 and argv[0] == "--replay":
         rec = json.load(open(argv[1]))
         w = rec.get("witness") or {}
